@@ -273,7 +273,7 @@ fn main() {
             1 => IBig::ONE,
             _ => random_ibig(&mut rng, args.max_words),
         };
-        let a = if rng.below(6) == 0 { random_ibig(&mut rng, args.max_words) } else { &q * &b + &r };
+        let a = if rng.below(6) == 0 { random_ibig(&mut rng, args.max_words) } else { guarded_or(q.clone(), || &q * &b + &r) };
         run_case(&mut log, lt, rt, &a, &b, "rnd");
     }
     let n = log.finish();
